@@ -167,6 +167,19 @@ fn value_lattice_forms(asm: &Asm, mach: &mut Mach, rng: &mut Rng, sh: &mut Shard
                     let sreg = if w == 8 { Opnd::Reg8("ch") } else { Opnd::Reg16("cx") };
                     regs.set(if w == 8 { "ch" } else { "cx" }, sv);
                     let imm = Opnd::Imm(if w == 8 { (sv & 0xFF) as i32 } else { sv as i32 });
+                    if *cls == "shift" {
+                        // counts around the operand width, as an immediate and in CL (CH holds something else)
+                        let wd = w as u32;
+                        let counts = [1u32, 2, wd - 1, wd, wd + 1, 2 * wd + 1, 255];
+                        let c = counts[(vi + n) % counts.len()];
+                        let mn: &'static str = if *op == "sal" && (vi + n) % 2 == 0 { "shl" } else { op };
+                        todo.push(Ins::Shift { op, mn, w, dst: dst.clone(), cnt: Cnt::Imm(c) });
+                        if kind != 0 || w == 16 {
+                            regs.set("cx", 0x5A00 | counts[(vi + n + 3) % counts.len()] as u16);
+                            todo.push(Ins::Shift { op, mn, w, dst: dst.clone(), cnt: Cnt::Cl });
+                        }
+                        continue;
+                    }
                     for src in [sreg, imm] {
                         todo.push(match *cls {
                             "binarith" => Ins::BinArith { op, w, dst: dst.clone(), src },
@@ -409,7 +422,8 @@ fn gen_c02(asm: &Asm, mach: &mut Mach, rng: &mut Rng, sh: &mut Shards, thorough:
     let (ps, pm) = if thorough { (30, 4) } else { (3, 1) };
     form_steps_binary(asm, mach, rng, sh, "logic", &lops, false, ps, pm);
     form_steps_unary(asm, mach, rng, sh, &["not"], ps, pm);
-    value_lattice_forms(asm, mach, rng, sh, &["not"], &[("logic", "and"), ("logic", "or"), ("logic", "xor"), ("logic", "test")], if thorough { 1 } else { 3 });
+    value_lattice_forms(asm, mach, rng, sh, &["not"], &[("logic", "and"), ("logic", "or"), ("logic", "xor"), ("logic", "test"),
+        ("shift", "sal"), ("shift", "shr"), ("shift", "sar"), ("shift", "rol"), ("shift", "ror"), ("shift", "rcl"), ("shift", "rcr")], if thorough { 1 } else { 3 });
     form_steps_shift(asm, mach, rng, sh, ps.min(4), if thorough { 1 } else { 0 });
     if !thorough {
         // one pass over the memory shapes with a random shift mnemonic each
